@@ -244,6 +244,19 @@ func genWrap(seed uint64, faulty bool) *Scenario {
 		}
 		sc.Clients = append(sc.Clients, b)
 	}
+	if strings.HasPrefix(w.Kind, "blank") && g.pct(30) {
+		// somebody else calls Blank.Done while the wrapped side's program is
+		// at work (SetSource calls then carry a deadline: with the slot
+		// released and the monitor gone they end with their context)
+		d := ClientSpec{Name: "doner", Kind: "doner", Ops: []Op{{K: "pause", N: g.in(0, 60)}, {K: "cdone"}}}
+		for i := range c.Ops {
+			if strings.HasPrefix(c.Ops[i].K, "set-") {
+				// (an hour: far beyond every sleep of the run, so it only ends a call that is really stuck)
+				c.Ops[i].Ctx, c.Ops[i].D = "deadline", int64(time.Hour)
+			}
+		}
+		sc.Clients = append(sc.Clients, d)
+	}
 	sc.Clients = append(sc.Clients, c)
 	switch g.r.IntN(5) {
 	case 0:
@@ -274,6 +287,7 @@ type wInner struct {
 }
 
 func (s *wInner) Value(_ context.Context, t *dials.Type) (reflect.Value, error) {
+	simrt.Yield("inner.Value") // a real source reads something here: others run meanwhile
 	if s.failVal {
 		return reflect.Value{}, errInner
 	}
@@ -342,6 +356,28 @@ type wrapRun struct {
 	expectMonitorGone bool
 	expectStamp       uint64 // stamp the wrapped twin must show once settled (0: only twin equality is checked)
 	watchers          []*wInnerWatch
+	doneInvoke        int // a concurrent Blank.Done (doner client): steps of its invocation and return
+	doneReturn        int
+}
+
+// doner calls Blank.Done from another goroutine than the one that sets sources.
+func (r *wrapRun) doner(c *ClientSpec, blank *sourcewrap.Blank) {
+	for i := range c.Ops {
+		op := &c.Ops[i]
+		switch op.K {
+		case "pause":
+			for n := 0; n < op.N; n++ {
+				simrt.Yield("pause")
+			}
+		case "cdone":
+			r.doneInvoke = r.sim.Step()
+			ctx, cancel := context.WithTimeout(r.ctx, time.Hour)
+			blank.Done(ctx)
+			cancel()
+			r.doneReturn = r.sim.Step()
+			r.probes["concurrent-blank-done"]++
+		}
+	}
 }
 
 // watchContexts: natively a watcher is handed the Config context and lives as
@@ -365,6 +401,18 @@ func (r *wrapRun) fail(oracle, format string, a ...any) {
 	if len(r.viol) < 20 {
 		r.viol = append(r.viol, Violation{Oracle: oracle, Msg: fmt.Sprintf(format, a...)})
 	}
+}
+
+// releasedMeanwhile: a SetSource that ended with its context's error after
+// somebody else had called Blank.Done - the slot was released (and, if the
+// Blank was the only watcher, the monitor is gone): legitimate, and the end of
+// the wrapped side's program.
+func (r *wrapRun) releasedMeanwhile(err error) bool {
+	if err != nil && isCtxErr(err) && r.doneInvoke != 0 {
+		r.probes["setsource-after-concurrent-done"]++
+		return true
+	}
+	return false
 }
 
 func serialW(s dials.CfgSerial[CfgWrap]) uint64 { return reflect.ValueOf(s).FieldByName("s").Uint() }
@@ -450,6 +498,8 @@ func runWrap(sc *Scenario, res *Result, keepLog bool) {
 				s.Spawn(c.Name, func() { r.plain(c, plainW, plainU); r.done++ })
 			case "wrapped":
 				s.Spawn(c.Name, func() { r.wrapped(c, blank, innerW, nat, mg); r.done++ })
+			case "doner":
+				s.Spawn(c.Name, func() { r.doner(c, blank); r.done++ })
 			}
 		}
 		reason := s.Run(sc.MaxSteps, func() bool { return r.done >= r.clients }, time.Time{})
@@ -563,6 +613,9 @@ func (r *wrapRun) wrapped(c *ClientSpec, blank *sourcewrap.Blank, inner *wInnerW
 			r.probes["setsource-with-a-per-call-context"]++
 			return context.WithCancel(r.ctx)
 		}
+		if op.Ctx == "deadline" {
+			return context.WithTimeout(r.ctx, time.Duration(op.D))
+		}
 		return r.ctx, func() {}
 	}
 	for i := range c.Ops {
@@ -615,6 +668,9 @@ func (r *wrapRun) wrapped(c *ClientSpec, blank *sourcewrap.Blank, inner *wInnerW
 			sctx, scancel := callCtx(op)
 			err := blank.SetSource(sctx, src)
 			scancel()
+			if r.releasedMeanwhile(err) {
+				return
+			}
 			switch {
 			case r.state == "watching":
 				r.probes["replace-watching-refused"]++
@@ -649,6 +705,9 @@ func (r *wrapRun) wrapped(c *ClientSpec, blank *sourcewrap.Blank, inner *wInnerW
 			sctx, scancel := callCtx(op)
 			err := blank.SetSource(sctx, src)
 			scancel()
+			if r.releasedMeanwhile(err) {
+				return
+			}
 			r.probes["setsource-watching-value-fails"]++
 			switch {
 			case r.state == "watching":
@@ -673,6 +732,9 @@ func (r *wrapRun) wrapped(c *ClientSpec, blank *sourcewrap.Blank, inner *wInnerW
 			sctx, scancel := callCtx(op)
 			err := blank.SetSource(sctx, src)
 			scancel()
+			if r.releasedMeanwhile(err) {
+				return
+			}
 			if err == nil {
 				r.watchers = append(r.watchers, iw)
 			}
@@ -715,7 +777,13 @@ func (r *wrapRun) wrapped(c *ClientSpec, blank *sourcewrap.Blank, inner *wInnerW
 			}
 			r.probes["blank-value-delegated"]++
 		case "bdone":
-			blank.Done(r.ctx)
+			{
+				// (with the slot already released by somebody else and the
+				// monitor gone, a second Done waits for its context)
+				dctx, dcancel := context.WithTimeout(r.ctx, time.Hour)
+				blank.Done(dctx)
+				dcancel()
+			}
 			if r.state == "watching" {
 				r.probes["done-after-watching-is-noop"]++
 				// must be a no-op: a later report is still installed
